@@ -9,7 +9,7 @@ import (
 
 // C03 — Bash target preserves slice and string operation semantics.
 func c03Cfg(thorough bool) gen.Cfg {
-	c := gen.Cfg{MaxStmts: 24, MaxDepth: 3, ExprDepth: 3, Funcs: true, MaxFuncs: 3, Slices: true, StrOps: true, LoopBudget: 12, DumpGlobal: true, BigSlices: true, ErrSpell: true, BareExpr: true}
+	c := gen.Cfg{MaxStmts: 24, MaxDepth: 3, ExprDepth: 3, Funcs: true, MaxFuncs: 3, Slices: true, StrOps: true, LoopBudget: 12, DumpGlobal: true, BigSlices: true, ErrSpell: true, BareExpr: true, Panics: true}
 	if thorough {
 		c.MaxStmts, c.MaxDepth, c.MaxFuncs, c.LoopBudget = 50, 5, 5, 30
 	}
